@@ -19,7 +19,7 @@ TREES = {
     "Tb": {"a": "w", "b": "w", "e": "e"},
     "Tc": {"m": "v", "n/o": "crlf"},
 }
-SCENARIOS = ["stage-transfer", "index-save", "store-transfer", "upload"]
+SCENARIOS = ["stage-transfer", "index-save", "store-transfer", "upload", "verify-transfer"]
 
 
 def listing(t):
@@ -41,9 +41,12 @@ def setup(root, cfg):
     if cfg["initial"] == "half":
         first = sorted(listing(t).values())[0]
         put_raw(odb, first, [CONTENTS[c] for c in TREES[t].values() if MD5[c] == first][0])
-    if cfg["scenario"] == "store-transfer":
+    if cfg["scenario"] in ("store-transfer", "verify-transfer"):
         src = make_odb("local", os.path.join(root, "src"))
+        first_file = sorted(listing(t).values())[-1]
         for oid, data in all_objects(t).items():
+            if cfg["scenario"] == "verify-transfer" and oid == first_file:
+                data = b"bit-rot:" + data   # a protected source object that no longer matches its name
             put_raw(src, oid, data)
     os.makedirs(os.path.join(root, "tmp"), exist_ok=True)
 
@@ -69,7 +72,7 @@ def body(root, cfg, phase, arm):
         install_order_seam([cfg["first"]])
     idx = None
     try:
-        if sc == "store-transfer":
+        if sc in ("store-transfer", "verify-transfer"):
             idx = ObjectDBIndex(os.path.join(root, "idx"), "dest")
         arm()
         if sc in ("stage-transfer", "upload"):
@@ -78,10 +81,10 @@ def body(root, cfg, phase, arm):
         elif sc == "index-save":
             index = imd5(ibuild(ws, LFS), state=state)
             isave(index, odb=odb)
-        elif sc == "store-transfer":
+        elif sc in ("store-transfer", "verify-transfer"):
             src = make_odb("local", os.path.join(root, "src"))
             ids = {hi(o) for o in all_objects(t)}
-            transfer(src, odb, ids, dest_index=idx, hardlink=False)
+            transfer(src, odb, ids, dest_index=idx, hardlink=False, verify=sc == "verify-transfer")
     finally:
         if cfg.get("first"):
             remove_order_seam()
@@ -247,7 +250,7 @@ def configs(tier):
         for t in trees:
             for initial in ("empty", "half"):
                 firsts = [None]
-                if sc in ("stage-transfer", "store-transfer", "upload"):
+                if sc in ("stage-transfer", "store-transfer", "upload", "verify-transfer"):
                     objs = sorted(all_objects(t))
                     firsts = objs if tier == "thorough" else [objs[0], objs[-1]]
                 for first in firsts:
@@ -260,7 +263,7 @@ def configs(tier):
 def run(ctx):
     ctx.rule = (
         "E4: scenarios {stage+transfer into a local store with state, index build/md5/save of nested "
-        "directories, closed store-to-store transfer with a remote index, upload staging} x trees (nested, "
+        "directories, closed store-to-store transfer with a remote index, upload staging, verifying store-to-store transfer from a source holding a corrupt (protected) object} x trees (nested, "
         "duplicate + empty contents; thorough: + CRLF) x initial store {empty, half populated} x which object is "
         "first in an add batch x privilege {as invoked, CAP_DAC_OVERRIDE/FOWNER dropped}: the child is killed "
         "before every file-system-mutating event (audit hook) and in the middle of every byte copy; audit; "
